@@ -3,6 +3,7 @@ C strings, result ranges and case splits, argv[0]-needs-argc>0, dispatcher dataf
 from common import *
 from c19_ext import *
 from c01 import trace_const
+from c19_flow import *
 from irlib import tyname
 
 
@@ -32,6 +33,7 @@ def run_memmem(rep, repo):
     ])
     run.run('igris_memmem', spec)
     rep.add_absint('R-MEMMEM', summarize(it, run))
+    memmem_scan_rule(rep, mod)
 
 
 def run_replsub(rep, repo):
@@ -42,6 +44,7 @@ def run_replsub(rep, repo):
     lim = ['arg%d <= 1099511627776' % k for k in (1, 3, 5, 7)]
     run.run('replace_substrings', FnSpec(setup=sized_params((0, 1), (2, 3), (4, 5), (6, 7)), pre=lim))
     rep.add_absint('R-REPLSUB', summarize(it, run))
+    replace_cursor_rule(rep, mod, 'replace_substrings', 'replace_substrings', lambda f: ('a', 5))
 
 
 def argv_store_hook(run, data_idx, argv_idx):
@@ -717,3 +720,29 @@ def run_replacecpp(rep, repo):
         raise AnalysisBroken('igris::replace not found')
     run.run(c[0].name, FnSpec())
     rep.add_absint('R-REPLACE', nice(mod, summarize(it, run)))
+
+    def sub_size(f):
+        # sub.size(): the call of std::string::size() on the second string parameter
+        for i in f.all_insts():
+            if i.op in ('call', 'invoke') and i.callee in sm.ext and sm.ext[i.callee] == sm.size and \
+                    i.ops and i.ops[0].k == 'arg' and i.ops[0].argno == 2 and \
+                    any(u.op in ('call', 'invoke') and u.callee == 'igris_memmem' for u in f.users(i)):
+                return ('i', i.id)
+        raise AnalysisBroken('igris::replace: sub.size() argument of igris_memmem not found')
+    # the step uses a second sub.size() call: both are the same pure value
+    f = c[0]
+    sizes = [i for i in f.all_insts() if i.op in ('call', 'invoke') and i.callee in sm.ext and
+             sm.ext[i.callee] == sm.size and i.ops and i.ops[0].k == 'arg' and i.ops[0].argno == 2]
+    canon = sub_size(f)
+    import c19_flow
+    orig = c19_flow.lin_of
+
+    def lin_alias(fn, v, depth=0):
+        if v.k == 'inst' and any(v.id == s_.id for s_ in sizes):
+            return {canon: 1}, 0
+        return orig(fn, v, depth)
+    c19_flow.lin_of = lin_alias
+    try:
+        replace_cursor_rule(rep, mod, f.name, 'igris::replace', lambda fn: canon)
+    finally:
+        c19_flow.lin_of = orig
